@@ -56,7 +56,8 @@ pub fn drive(args: &[String]) {
     for s in syms_from_files(&files) {
         if !s.is_connected() { continue; }
         let n = s.size();
-        let perms: Vec<Vec<usize>> = if n <= 3 || (thorough && n <= 4) { all_perms(n).into_iter().skip(1).collect() } else { (0..4).map(|_| rand_perm(n, &mut rng)).collect() };
+        let perms: Vec<Vec<usize>> = if n <= 3 { all_perms(n).into_iter().skip(1).collect() }
+            else if thorough && n == 4 { let mut a: Vec<Vec<usize>> = all_perms(n).into_iter().skip(1).collect(); a.shuffle(&mut rng); a.truncate(8); a } else { (0..4).map(|_| rand_perm(n, &mut rng)).collect() };
         add(&s, perms, &mut groups);
     }
     // (b) generator outputs with random renumberings, and their duals
